@@ -338,6 +338,7 @@ func (rs *rowStore) processInserts(offsetsBySource common.OffsetsBySource, stop 
 func (rs *rowStore) iterate(ctx context.Context, outFields core.Fields, includeMemStore bool, onValue func(bytemap.ByteMap, []encoding.Sequence) (more bool, err error)) (common.OffsetsBySource, error) {
 	guard := core.Guard(ctx)
 
+	vhook("iter.begin", rs.t)
 	rs.mx.RLock()
 	fs := rs.fileStore
 	var ms *memstore
@@ -346,6 +347,7 @@ func (rs *rowStore) iterate(ctx context.Context, outFields core.Fields, includeM
 	}
 	vhook("iter.start", rs.t, fs.filename, includeMemStore, ms)
 	rs.mx.RUnlock()
+	vhook("iter.copied", rs.t)
 	rs.mx.Lock()
 	rs.iterationsInProgress[fs.filename]++
 	rs.mx.Unlock()
